@@ -24,6 +24,7 @@ import (
 	"go/constant"
 	"go/token"
 	"go/types"
+	"strings"
 
 	"golang.org/x/tools/go/ssa"
 )
@@ -31,7 +32,128 @@ import (
 var (
 	helperSite  = map[*ssa.Function]*ssa.Call{}
 	helpersDone = map[*ssa.Program]bool{}
+	// methodLiteral: a method value x.M whose method M has no other use stands for a function literal
+	// `func(args) { x.M(args) }` written at that place: go/ssa's bound-method wrapper W (a closure over
+	// x that calls M) is analysed like a literal created at this MakeClosure, and M is a transparent
+	// helper of W (so a field x.f read in M is a read through the captured x, as a captured variable
+	// would be read in a literal).
+	methodLiteral = map[*ssa.Function]*ssa.MakeClosure{}
+	extraFuncs    = map[string][]*ssa.Function{} // package path → bound wrappers analysed as literals
+	// spawnSite: an unexported function or method whose only use is one `go f(…)` or `defer f(…)`
+	// statement — the body of a goroutine or of a deferred action written as a named function: lexically
+	// it belongs to the function that starts it (like a `go func() {…}()` literal)
+	spawnSite = map[*ssa.Function]ssa.CallInstruction{}
+	// fieldStoreCount: number of stores to a struct field in all own functions (session-object fields are
+	// those set once, by the composite literal that builds the object)
+	fieldStoreCount = map[*types.Var]int{}
+	// fieldStoredLater: the field is also written through a pointer / parameter / field path, i.e. not
+	// only when a local composite is built
+	fieldStoredLater = map[*types.Var]bool{}
 )
+
+// sessionFieldLoad: ld reads field f of a session object — an unexported struct built by a composite
+// literal that this function (through transparent helpers: parameters, receivers) can see, f set by that
+// literal and by nothing else in the program.  Returns the value the literal gave to f: the field plays
+// the part a captured variable plays for a literal.
+func sessionFieldLoad(ld *ssa.UnOp) ssa.Value {
+	if ld.Op != token.MUL || sessionLook > 3 {
+		return nil
+	}
+	fa, ok := ld.X.(*ssa.FieldAddr)
+	if !ok {
+		return nil
+	}
+	f := fieldOfAddr(fa)
+	if f.Exported() || f.Pkg() == nil || !ownPkgPath(f.Pkg().Path()) || fieldStoreCount[f] != 1 {
+		return nil
+	}
+	sessionLook++
+	base := strip(fa.X)
+	sessionLook--
+	alloc, ok := base.(*ssa.Alloc)
+	if !ok || alloc.Parent() == ld.Parent() {
+		return nil // in the building function itself the object is an ordinary local
+	}
+	pt, isP := alloc.Type().Underlying().(*types.Pointer)
+	if !isP || namedOf(pt.Elem()) == nil || namedOf(pt.Elem()).Obj().Exported() {
+		return nil
+	}
+	val, ok := structLitFieldValue(alloc, f)
+	if !ok {
+		return nil
+	}
+	return val
+}
+
+var sessionLook int
+
+// enclosingFn: the function whose body f is (analysed as) part of: the function a literal is written
+// in, the only caller of a transparent helper, the function that takes a method value standing for a
+// literal.
+func enclosingFn(f *ssa.Function) *ssa.Function {
+	if f == nil {
+		return nil
+	}
+	if p := f.Parent(); p != nil {
+		return p
+	}
+	if c := helperCall(f); c != nil {
+		return c.Parent()
+	}
+	if mc := methodLiteral[f]; mc != nil {
+		return mc.Parent()
+	}
+	if ci := spawnSite[f]; ci != nil {
+		return ci.Parent()
+	}
+	return nil
+}
+
+// litBody: the function whose body a literal runs — the literal itself, or for a method value standing
+// for a literal the method it calls.
+func litBody(fn *ssa.Function) *ssa.Function {
+	if methodLiteral[fn] == nil {
+		// any other bound-method wrapper (a method value taken at several places: `link.forward` for
+		// key generation and for signing): its body is the one call of the method
+		if fn != nil && strings.HasSuffix(fn.Name(), "$bound") && fn.Synthetic != "" && len(fn.Blocks) == 1 {
+			var only *ssa.Function
+			n := 0
+			for _, in := range fn.Blocks[0].Instrs {
+				if c, ok := in.(*ssa.Call); ok {
+					n++
+					only = c.Call.StaticCallee()
+				}
+			}
+			if n == 1 && only != nil && only.Blocks != nil {
+				return only
+			}
+		}
+		return fn
+	}
+	for _, in := range instrsOf(fn) {
+		if c, ok := in.(*ssa.Call); ok {
+			if g := c.Call.StaticCallee(); g != nil && helperSite[g] == c {
+				return g
+			}
+		}
+	}
+	return fn
+}
+
+// litParent: the function a literal is written in (for a method value standing for a literal: the
+// function that takes the method value).
+func litParent(fn *ssa.Function) *ssa.Function {
+	if fn == nil {
+		return nil
+	}
+	if p := fn.Parent(); p != nil {
+		return p
+	}
+	if mc := methodLiteral[fn]; mc != nil {
+		return mc.Parent()
+	}
+	return nil
+}
 
 // registerHelpers computes the transparent helpers of a loaded module (idempotent).
 func registerHelpers(m *Module) {
@@ -59,9 +181,18 @@ func registerHelpers(m *Module) {
 	}
 	calls := map[*ssa.Function][]ssa.CallInstruction{}
 	valueUse := map[*ssa.Function]bool{}
+	boundUses := map[*ssa.Function][]*ssa.MakeClosure{} // method → the method values taken of it
 	for _, fn := range fns {
 		for _, b := range fn.Blocks {
 			for _, in := range b.Instrs {
+				if st, ok := in.(*ssa.Store); ok {
+					if fa, ok := st.Addr.(*ssa.FieldAddr); ok {
+						fieldStoreCount[fieldOfAddr(fa)]++
+						if _, isLocal := fa.X.(*ssa.Alloc); !isLocal {
+							fieldStoredLater[fieldOfAddr(fa)] = true // not the initialisation of a local composite
+						}
+					}
+				}
 				var callee ssa.Value
 				if ci, ok := in.(ssa.CallInstruction); ok {
 					if f := ci.Common().StaticCallee(); f != nil {
@@ -73,6 +204,7 @@ func registerHelpers(m *Module) {
 					if _, meth, ok := boundMethod(mc); ok {
 						if f := m.Prog.FuncValue(meth); f != nil {
 							valueUse[f] = true
+							boundUses[f] = append(boundUses[f], mc)
 						}
 					}
 				}
@@ -96,10 +228,73 @@ func registerHelpers(m *Module) {
 			}
 		}
 	}
+	for f, cs := range calls {
+		staticCallersOf[f] = cs
+	}
+	for f := range valueUse {
+		usedAsFuncValue[f] = true
+	}
+	// method values standing for literals: an unexported method of an own type that is never called and
+	// of which exactly one method value is taken
+	for meth, mcs := range boundUses {
+		obj := meth.Object()
+		if len(mcs) != 1 || obj == nil || obj.Exported() || meth.Blocks == nil || len(calls[meth]) != 0 || meth.Signature.Recv() == nil || ifaceMethods[meth.Name()] {
+			continue
+		}
+		// no other use of the method as a value (method expression T.M, interface satisfaction through
+		// an exported name is excluded above)
+		other := false
+		for _, fn := range fns {
+			for _, b := range fn.Blocks {
+				for _, in := range b.Instrs {
+					for _, op := range in.Operands(nil) {
+						if op != nil && *op == ssa.Value(meth) {
+							other = true
+						}
+					}
+				}
+			}
+		}
+		if other {
+			continue
+		}
+		w, _ := mcs[0].Fn.(*ssa.Function)
+		if w == nil || w.Blocks == nil {
+			continue
+		}
+		var inner *ssa.Call
+		n := 0
+		for _, in := range instrsOf(w) {
+			if c, ok := in.(*ssa.Call); ok && c.Call.StaticCallee() == meth {
+				inner = c
+				n++
+			}
+		}
+		if n != 1 {
+			continue
+		}
+		methodLiteral[w] = mcs[0]
+		helperSite[meth] = inner
+		delete(valueUse, meth)
+		pp := pkgPathOf(meth)
+		extraFuncs[pp] = append(extraFuncs[pp], w)
+	}
 	for _, fn := range fns {
 		obj := fn.Object()
-		if obj == nil || fn.Parent() != nil || fn.Synthetic != "" || obj.Exported() || fn.Name() == "init" || fn.Name() == "main" {
+		isInstance := fn.Origin() != nil && fn.Origin() != fn
+		if obj == nil || fn.Parent() != nil || (fn.Synthetic != "" && !isInstance) || obj.Exported() || fn.Name() == "init" || fn.Name() == "main" {
 			continue
+		}
+		if !valueUse[fn] && len(calls[fn]) == 1 && !(fn.Signature.Recv() != nil && ifaceMethods[fn.Name()]) {
+			switch calls[fn][0].(type) {
+			case *ssa.Go, *ssa.Defer:
+				if calls[fn][0].Parent() != fn {
+					spawnSite[fn] = calls[fn][0]
+				}
+			}
+		}
+		if helperSite[fn] != nil {
+			continue // a method standing behind a method value (above)
 		}
 		if valueUse[fn] || len(calls[fn]) != 1 {
 			continue
@@ -326,9 +521,21 @@ func helperOutcomeFacts(f Fact, depth int) []Fact {
 		}
 		call = c
 		wantNil := f.Op == token.EQL
+		isErrResult := func(v ssa.Value) bool {
+			return types.Identical(v.Type(), types.Universe.Lookup("error").Type())
+		}
 		want = func(v ssa.Value, r *ssa.Return) (bool, bool) {
 			if isNilConst(v) {
 				return wantNil, true
+			}
+			if !isErrResult(v) {
+				// a pointer / map / func result that is not the constant nil: it MAY be non-nil, and it
+				// MAY be nil — the return belongs to either outcome (the facts kept are those common to
+				// every return that can produce the outcome, so counting it in is the sound side)
+				if _, isAlloc := stripNoParam(v).(*ssa.Alloc); isAlloc {
+					return !wantNil, true // the address of a fresh object: never nil
+				}
+				return true, true
 			}
 			// an error variable that was found non-nil on the way to this return
 			for _, g := range GuardsLocal(r) {
@@ -352,15 +559,50 @@ func helperOutcomeFacts(f Fact, depth int) []Fact {
 			}
 			return false, false
 		}
+	case (f.Op == token.EQL || f.Op == token.NEQ) && (isValueConst(f.Y) || isValueConst(f.X)):
+		// `status := classify(x); if status == statusConflict { … }`: the helper reports one of several
+		// constants (an enumeration): what holds at every return that reports this one
+		kv, cv := f.Y, f.X
+		if !isValueConst(kv) {
+			kv, cv = f.X, f.Y
+		}
+		k := kv.(*ssa.Const)
+		v := stripNoParam(cv)
+		if e, ok := v.(*ssa.Extract); ok {
+			v, idx = e.Tuple, e.Index
+		}
+		c, ok := v.(*ssa.Call)
+		if !ok {
+			return nil
+		}
+		call = c
+		wantEq := f.Op == token.EQL
+		want = func(v ssa.Value, _ *ssa.Return) (bool, bool) {
+			rk, ok := v.(*ssa.Const)
+			if !ok || rk.Value == nil {
+				return false, false
+			}
+			return constant.Compare(rk.Value, token.EQL, k.Value) == wantEq, true
+		}
 	default:
 		return nil
 	}
 	g := call.Call.StaticCallee()
+	var translate func([]Fact) []Fact
 	if g == nil || helperSite[g] != call {
-		g = boundLiteral(call)
-		if g == nil {
-			return nil
+		if g != nil && pureOfParams(g) {
+			// a predicate over its parameters alone, shared by several callers (`t.valid()`): the facts
+			// of its returns, with this call's arguments in place of the parameters
+			translate = func(fs []Fact) []Fact { return factsForCall(fs, g, call) }
+		} else {
+			g = boundLiteral(call)
+			if g == nil {
+				return nil
+			}
 		}
+	}
+	if translate == nil {
+		translate = func(fs []Fact) []Fact { return fs }
 	}
 	// a predicate with a single return of a computed boolean: the outcome is that expression's value
 	if f.Op == 0 {
@@ -372,10 +614,47 @@ func helperOutcomeFacts(f Fact, depth int) []Fact {
 		}
 		if len(rets) == 1 {
 			rv := retResult(rets[0], idx)
+			if phi, isPhi := rv.(*ssa.Phi); isPhi && phi.Block() == rets[0].Block() {
+				// `return a && b` / `return a || b`: per incoming edge, what holds at the end of the
+				// predecessor and the value carried; the facts common to the edges giving this outcome
+				var common []Fact
+				first := true
+				for i, e := range phi.Edges {
+					pred := phi.Block().Preds[i]
+					var fs []Fact
+					if k, isK := e.(*ssa.Const); isK {
+						if k.Value == nil || (k.Value.String() == "true") != f.True {
+							continue
+						}
+					} else {
+						fs = append(fs, factOf2(e, f.True, f.If))
+						fs = append(fs, helperOutcomeFacts(fs[0], depth+1)...)
+					}
+					fs = append(fs, factsAtDepth(pred.Instrs[len(pred.Instrs)-1], depth+1)...)
+					fs = withMirrored(fs)
+					if first {
+						common, first = fs, false
+						continue
+					}
+					var keep []Fact
+					for _, x := range common {
+						for _, y := range fs {
+							if x.Op == y.Op && x.True == y.True && x.Bool == y.Bool && x.X == y.X && x.Y == y.Y {
+								keep = append(keep, x)
+								break
+							}
+						}
+					}
+					common = keep
+				}
+				return translate(append(common, factsAtDepth(rets[0], depth+1)...))
+			}
 			if _, isK := rv.(*ssa.Const); !isK {
 				out := []Fact{factOf2(rv, f.True, f.If)}
+				// … itself the outcome of a further predicate (a method value's wrapper calling the method)
+				out = append(out, helperOutcomeFacts(out[0], depth+1)...)
 				out = append(out, factsAtDepth(rets[0], depth+1)...)
-				return out
+				return translate(out)
 			}
 		}
 	}
@@ -409,7 +688,86 @@ func helperOutcomeFacts(f Fact, depth int) []Fact {
 		}
 		common = keep
 	}
-	return common
+	return translate(common)
+}
+
+// pureOfParams: a small function of its parameters and constants alone — no loads, calls, or captured
+// state — so that what holds at its returns can be restated at any call in terms of the arguments.
+func pureOfParams(g *ssa.Function) bool {
+	if g == nil || len(g.Blocks) == 0 || len(g.FreeVars) > 0 || len(g.Blocks) > 12 {
+		return false
+	}
+	for _, b := range g.Blocks {
+		for _, in := range b.Instrs {
+			switch x := in.(type) {
+			case *ssa.BinOp, *ssa.If, *ssa.Jump, *ssa.Return, *ssa.Phi, *ssa.Convert, *ssa.ChangeType, *ssa.DebugRef:
+			case *ssa.UnOp:
+				if x.Op == token.MUL || x.Op == token.ARROW {
+					return false
+				}
+			case *ssa.Call:
+				// len/cap of a parameter
+				bi, ok := x.Call.Value.(*ssa.Builtin)
+				if !ok || (bi.Name() != "len" && bi.Name() != "cap") {
+					return false
+				}
+			default:
+				return false
+			}
+		}
+	}
+	return true
+}
+
+// factsForCall restates facts of g's frame at a call of g: operands that are parameters (possibly
+// converted) become the call's arguments, constants stay, anything else drops the fact.
+func factsForCall(fs []Fact, g *ssa.Function, call *ssa.Call) []Fact {
+	var tr func(v ssa.Value, d int) ssa.Value
+	tr = func(v ssa.Value, d int) ssa.Value {
+		if v == nil || d > 4 {
+			return nil
+		}
+		switch x := v.(type) {
+		case *ssa.Const:
+			return x
+		case *ssa.Parameter:
+			if x.Parent() != g {
+				return nil
+			}
+			if i := paramIndex(x); i >= 0 && i < len(call.Call.Args) {
+				return call.Call.Args[i]
+			}
+			return nil
+		case *ssa.ChangeType:
+			return tr(x.X, d+1)
+		case *ssa.Convert:
+			// only representation-preserving conversions (same size and signedness)
+			if bt, ok := x.Type().Underlying().(*types.Basic); ok {
+				if bf, ok := x.X.Type().Underlying().(*types.Basic); ok && bt.Kind() == bf.Kind() {
+					return tr(x.X, d+1)
+				}
+			}
+			return nil
+		}
+		return nil
+	}
+	var out []Fact
+	for _, f := range fs {
+		if f.Op == 0 {
+			if b := tr(f.Bool, 0); b != nil {
+				f.Bool = b
+				out = append(out, f)
+			}
+			continue
+		}
+		x, y := tr(f.X, 0), tr(f.Y, 0)
+		if x == nil || y == nil {
+			continue
+		}
+		f.X, f.Y = x, y
+		out = append(out, f)
+	}
+	return out
 }
 
 // stripNoParam is strip without the parameter look-through (used where the call itself is wanted).
@@ -767,4 +1125,166 @@ func factoryArg(v ssa.Value, fc *ssa.Call) ssa.Value {
 		}
 	}
 	return nil
+}
+
+// inlinedInto: fn is target or a transparent helper (at any depth) of target.
+func inlinedInto(fn, target *ssa.Function) bool {
+	for i := 0; fn != nil && i < 16; i++ {
+		if fn == target {
+			return true
+		}
+		c := helperCall(fn)
+		if c == nil {
+			return false
+		}
+		fn = c.Parent()
+	}
+	return false
+}
+
+// isValueConst: a constant with a value (a number, string or boolean; not nil).
+func isValueConst(v ssa.Value) bool {
+	k, ok := v.(*ssa.Const)
+	if !ok || k.Value == nil {
+		return false
+	}
+	switch k.Value.Kind() {
+	case constant.Int, constant.String, constant.Bool:
+		return true
+	}
+	return false
+}
+
+// staticCallersOf / usedAsFuncValue: every static call of an own function, and whether it is also used as
+// a value (filled by registerHelpers for all own packages of the program).
+var (
+	staticCallersOf = map[*ssa.Function][]ssa.CallInstruction{}
+	usedAsFuncValue = map[*ssa.Function]bool{}
+)
+
+// mapParamOfField: v is a map-typed parameter of an unexported helper (possibly an instantiation of a
+// generic one) and EVERY call of that helper passes the map held in field f for it: inside the helper the
+// parameter is that table (`putHandlerLocked(s.rbcInProgress, topic, h)`).
+func mapParamOfField(v ssa.Value, f *types.Var, depth int) bool {
+	if depth > 2 {
+		return false
+	}
+	p, ok := stripNoParam(v).(*ssa.Parameter)
+	if !ok {
+		return false
+	}
+	if _, isMap := p.Type().Underlying().(*types.Map); !isMap {
+		return false
+	}
+	g := p.Parent()
+	if g == nil || g.Object() == nil || g.Object().Exported() || usedAsFuncValue[g] {
+		return false
+	}
+	cs := staticCallersOf[g]
+	idx := paramIndex(p)
+	if len(cs) == 0 || idx < 0 {
+		return false
+	}
+	for _, c := range cs {
+		args := c.Common().Args
+		if idx >= len(args) {
+			return false
+		}
+		if _, fld, isF := fieldLoad(stripNoParam(args[idx])); isF && fld == f {
+			continue
+		}
+		if mapParamOfField(args[idx], f, depth+1) {
+			continue
+		}
+		return false
+	}
+	return true
+}
+
+// jointEnumFacts: several tests of ONE call of a helper that reports an enumeration constant
+// (`switch r.screen(x) { case verdictA: return; case verdictB: return }` leaves "≠ A and ≠ B" on the
+// continuing path): the facts common to the returns compatible with ALL of them — more than what each
+// test yields on its own.
+func jointEnumFacts(base []Fact, depth int) []Fact {
+	if depth > 3 {
+		return nil
+	}
+	type test struct {
+		k  *ssa.Const
+		eq bool
+	}
+	byCall := map[*ssa.Call][]test{}
+	var order []*ssa.Call
+	for _, f := range base {
+		if f.Op != token.EQL && f.Op != token.NEQ {
+			continue
+		}
+		kv, cv := f.Y, f.X
+		if !isValueConst(kv) {
+			kv, cv = f.X, f.Y
+		}
+		if !isValueConst(kv) {
+			continue
+		}
+		c, ok := stripNoParam(cv).(*ssa.Call)
+		if !ok {
+			continue
+		}
+		if _, seen := byCall[c]; !seen {
+			order = append(order, c)
+		}
+		byCall[c] = append(byCall[c], test{kv.(*ssa.Const), f.Op == token.EQL})
+	}
+	var out []Fact
+	for _, c := range order {
+		ts := byCall[c]
+		if len(ts) < 2 {
+			continue
+		}
+		g := c.Call.StaticCallee()
+		if g == nil || helperSite[g] != c || g.Signature.Results().Len() != 1 {
+			continue
+		}
+		var common []Fact
+		first, okAll := true, true
+		for _, in := range instrsOf(g) {
+			r, ok := in.(*ssa.Return)
+			if !ok {
+				continue
+			}
+			rk, isK := r.Results[0].(*ssa.Const)
+			if !isK || rk.Value == nil {
+				okAll = false
+				break
+			}
+			compatible := true
+			for _, t := range ts {
+				if constant.Compare(rk.Value, token.EQL, t.k.Value) != t.eq {
+					compatible = false
+				}
+			}
+			if !compatible {
+				continue
+			}
+			fs := factsAtDepth(r, depth+1)
+			if first {
+				common, first = fs, false
+				continue
+			}
+			var keep []Fact
+			for _, x := range common {
+				for _, y := range fs {
+					if x.Op == y.Op && x.True == y.True && x.Bool == y.Bool && x.X == y.X && x.Y == y.Y {
+						keep = append(keep, x)
+						break
+					}
+				}
+			}
+			common = keep
+		}
+		if okAll {
+			out = append(out, common...)
+		}
+	}
+	return out
 }
